@@ -4,9 +4,9 @@
    sequence of these steps), on top of the C14 buffer model.  [phist h0 steps] = all application
    callbacks of the run, oldest first.  fc/fp: arbitrary CheckParents / Process failure oracles. *)
 From Coq Require Import NArith List.
-From LV Require Import model.Buffer model.Processor spec.ProcessorSpec
+From LV Require Import model.Buffer model.Processor model.ProcessorOuter spec.ProcessorSpec
   proofs.ProcessorFrame proofs.ProcessorOrder proofs.ProcessorSem proofs.ProcessorRun
-  proofs.ProcessorDone proofs.ProcessorFar.
+  proofs.ProcessorDone proofs.ProcessorFar proofs.ProcessorMore proofs.ProcessorOuter.
 Import ListNotations.
 Local Open Scope N_scope.
 
@@ -80,6 +80,57 @@ Theorem C15_far_future : forall fc fp cap_n cap_s lim_n lim_s h0 steps,
                       /\ lam (tab s) g <= hl_of h0 (tab s) pre1 + 1 + lim_n.
 Proof. exact far_future. Qed.
 
+(* the semaphore is back to zero as soon as every accepted event has been released (no Stop needed) *)
+Theorem C15_sem_zero_when_all_released : forall fc fp cap_n cap_s lim_n lim_s h0 steps,
+  NoDup (all_g steps) ->
+  let s := prun fc fp cap_n cap_s lim_n lim_s h0 steps in
+  incl (pgs s) (relg (plog s)) -> held_n s = 0 /\ held_s s = 0.
+Proof. exact sem_zero_when_all_released. Qed.
+
+(* an ordered batch that is done was handled completely, in batch order *)
+Theorem C15_ordered_done_complete : forall fc fp cap_n cap_s lim_n lim_s h0 steps b,
+  NoDup (all_g steps) -> NoDup (map b_id (enq steps)) ->
+  In (SEnq b) steps -> b_ordered b = true ->
+  In (PDone (b_id b)) (plog (prun fc fp cap_n cap_s lim_n lim_s h0 steps)) ->
+  handles_of (phist fc fp cap_n cap_s lim_n lim_s h0 steps) b = gs b.
+Proof. exact ordered_done_complete. Qed.
+
+(* the fuel given to the reassembly loop (1 + batch length) always suffices: the explicit
+   out-of-fuel flag is never set *)
+Theorem C15_flush_fuel_suffices : forall fc fp cap_n cap_s lim_n lim_s h0 steps,
+  poof (prun fc fp cap_n cap_s lim_n lim_s h0 steps) = false.
+Proof. exact flush_fuel_suffices. Qed.
+
+(* ---- Enqueue as two steps (model/ProcessorOuter.v): Acquire, then queueing, which may be refused
+   with errTerminated once Stop() has begun.  [fixedq = true] is the repaired code. *)
+(* the core of every outer run is a core run, so all theorems above apply to it *)
+Theorem C15_outer_core_is_a_run : forall fc fp cap_n cap_s lim_n lim_s fixedq h0 osteps,
+  ocore (orun fc fp cap_n cap_s lim_n lim_s fixedq h0 osteps)
+  = prun fc fp cap_n cap_s lim_n lim_s h0 (rev (otrace (orun fc fp cap_n cap_s lim_n lim_s fixedq h0 osteps))).
+Proof. exact core_is_a_run. Qed.
+(* the real semaphore value (core + pending between the two halves + stuck + leaked) never exceeds
+   the capacity — in both versions *)
+Theorem C15_outer_sem_within_capacity : forall fc fp cap_n cap_s lim_n lim_s fixedq h0 osteps,
+  osem_n (orun fc fp cap_n cap_s lim_n lim_s fixedq h0 osteps) <= cap_n /\
+  osem_s (orun fc fp cap_n cap_s lim_n lim_s fixedq h0 osteps) <= cap_s.
+Proof. exact outer_sem_within_capacity. Qed.
+(* a successful queueing is really accepted by the core (its own capacity test cannot fail) *)
+Theorem C15_outer_queue_accepts : forall fc fp cap_n cap_s lim_n lim_s fixedq h0 osteps id b pd,
+  let o := orun fc fp cap_n cap_s lim_n lim_s fixedq h0 osteps in
+  take_pend id (opend o) = Some (b, pd) -> stopped (ocore o) = false -> quitf (ocore o) = false ->
+  held_n (ocore (ostep_run fc fp cap_n cap_s lim_n lim_s fixedq o (OQueue id))) = held_n (ocore o) + batch_num b
+  /\ osem_n (ostep_run fc fp cap_n cap_s lim_n lim_s fixedq o (OQueue id)) = osem_n o
+  /\ osem_s (ostep_run fc fp cap_n cap_s lim_n lim_s fixedq o (OQueue id)) = osem_s o.
+Proof. exact queue_accepts. Qed.
+(* repaired code: with no batch between the two halves of Enqueue and none stuck behind a finished
+   Stop, the semaphore is zero once every accepted event is released — also when Enqueue calls
+   raced Stop and were refused *)
+Theorem C15_outer_sem_zero_when_all_released : forall fc fp cap_n cap_s lim_n lim_s h0 osteps,
+  let o := orun fc fp cap_n cap_s lim_n lim_s true h0 osteps in
+  NoDup (all_g (rev (otrace o))) -> opend o = [] -> ostuck_n o = 0 -> ostuck_s o = 0 ->
+  incl (pgs (ocore o)) (relg (plog (ocore o))) -> osem_n o = 0 /\ osem_s o = 0.
+Proof. exact outer_sem_zero_when_all_released. Qed.
+
 (* non-vacuity: an ordered batch of three events whose check results arrive as 2,0,1 while a
    second batch is enqueued in between; the events are handled as 0,1,2 *)
 Definition c15_b1 : batch :=
@@ -117,3 +168,10 @@ Print Assumptions C15_released_exactly_once_after_stop.
 Print Assumptions C15_sem_zero_after_stop.
 Print Assumptions C15_finished_batch_released_once.
 Print Assumptions C15_far_future.
+Print Assumptions C15_sem_zero_when_all_released.
+Print Assumptions C15_ordered_done_complete.
+Print Assumptions C15_flush_fuel_suffices.
+Print Assumptions C15_outer_core_is_a_run.
+Print Assumptions C15_outer_sem_within_capacity.
+Print Assumptions C15_outer_queue_accepts.
+Print Assumptions C15_outer_sem_zero_when_all_released.
